@@ -2,7 +2,7 @@
    Fock-space action; the identities a compiler may use are consequences of the
    proved CAR: reordering two adjacent operators of a string. *)
 From Coq Require Import NArith ZArith List Bool Arith Lia Ring.
-From FQE Require Import Car Fock GaussZ Bits Denote Model ApplyThm.
+From FQE Require Import Car Fock GaussZ Bits Denote Model ApplyThm Sort.
 Import ListNotations.
 
 (* swapping adjacent anticommuting operators inside any string flips the sign:
@@ -54,3 +54,38 @@ Proof.
   intros q. rewrite (Nat.div2_odd q) at 3. destruct (Nat.odd q); simpl; lia.
 Qed.
 Print Assumptions C06_interleave_roundtrip.
+
+(* the compiler's swap-counting bubble sorts: the reordered string times (-1)^swaps acts
+   exactly like the original string, whatever the order sorted by, as long as only
+   operators of different modes are ever exchanged — for every string and determinant *)
+Theorem C06_bubble_sort_sound : forall (gt : lop -> lop -> bool) l, swaps_ok gt l ->
+  forall d, string_fn (snd (bubble gt l)) d = sflip (Nat.odd (fst (bubble gt l))) (string_fn l d).
+Proof. exact bubble_sound. Qed.
+Print Assumptions C06_bubble_sort_sound.
+
+Theorem C06_parity_sort_sound : forall (mode : lop -> nat) l,
+  (forall u v, In u l -> In v l -> mode u <> mode v -> opos u <> opos v) ->
+  forall d, string_fn (snd (bubble (mode_parity_gt mode) l)) d
+          = sflip (Nat.odd (fst (bubble (mode_parity_gt mode) l))) (string_fn l d).
+Proof. exact parity_sort_sound. Qed.
+Print Assumptions C06_parity_sort_sound.
+
+Theorem C06_descending_sort_sound : forall (mode : lop -> nat) l,
+  (forall u v, In u l -> In v l -> mode u <> mode v -> opos u <> opos v) ->
+  forall d, string_fn (snd (bubble (mode_lt mode) l)) d
+          = sflip (Nat.odd (fst (bubble (mode_lt mode) l))) (string_fn l d).
+Proof. exact descending_sort_sound. Qed.
+Print Assumptions C06_descending_sort_sound.
+
+(* gather_nbody_spin_sectors AS CODED (Sort.gather is what the correspondence runs against
+   the implementation): sound whenever the four sub-blocks are already descending, which
+   normal_ordered guarantees; wrong otherwise (the sub-blocks are sorted on copies) *)
+Theorem C06_gather_sound : forall ops, inblock_swaps ops = 0 ->
+  forall d, match gather ops with (sg, ab, bb) => string_fn (ab ++ bb) d = sflip sg (string_fn ops d) end.
+Proof. exact gather_sound. Qed.
+Print Assumptions C06_gather_sound.
+
+Theorem C06_gather_unsorted_refuted : exists ops d,
+  match gather ops with (sg, ab, bb) => string_fn (ab ++ bb) d <> sflip sg (string_fn ops d) end.
+Proof. exact gather_unsorted_refuted. Qed.
+Print Assumptions C06_gather_unsorted_refuted.
